@@ -489,7 +489,7 @@ func check(c Case, maxLen int) (st stats, err error) {
 			name string
 			i    *sut.I
 		}{{"Exec", exec}, {"expand_term+assertz", expand}} {
-			got := side.i.Query(qt, names, pr.max, int64(200*rr.Stats.Steps+20000))
+			got := side.i.Query(qt, names, pr.max, rr.Stats.RealBudget())
 			st.probes++
 			if e := compare(rr, got, pr.seq); e != nil {
 				return st, fmt.Errorf("%s [%s, loaded by %s]: %v", qt, pr.kind, side.name, e)
